@@ -33,6 +33,7 @@ func graveyardWorker(db *DB, ctx context.Context, gcRateLimitInterval time.Durat
 		if err := limiter.Wait(ctx); err != nil {
 			return
 		}
+		verifPause("gc-triggered", "gc")
 
 		cleaningTimes := make(map[string]time.Duration)
 
@@ -72,6 +73,7 @@ func graveyardWorker(db *DB, ctx context.Context, gcRateLimitInterval time.Durat
 			}
 			cleaningTimes[tableName] = time.Since(start)
 		}
+		verifPause("gc-scanned", "gc")
 
 		if len(toBeDeleted) == 0 {
 			for tableName, stat := range cleaningTimes {
@@ -102,6 +104,7 @@ func graveyardWorker(db *DB, ctx context.Context, gcRateLimitInterval time.Durat
 			cleaningTimes[tableName] = time.Since(start)
 		}
 		wtxn.Commit()
+		verifPause("gc-committed", "gc")
 
 		for tableName, stat := range cleaningTimes {
 			db.metrics.GraveyardCleaningDuration(
